@@ -119,6 +119,9 @@ class CoreProbe:
         for k, (oid, dg) in st.frozen.items():
             if rel.var_importance.get(k, 1.0) != 0 and k in st.unfrozen_by_user:
                 continue                      # the user un-froze it
+            if rel.var_importance.get(k, 1.0) != 0:
+                v.append(("I1 frozen key lost its zero importance", {"key": k, "where": where,
+                                                                     "importance": float(rel.var_importance.get(k, 1.0))}))
             if k not in data:
                 v.append(("I1 frozen key evicted", {"key": k, "where": where}))
             elif id(data[k]) != oid:
